@@ -23,7 +23,7 @@ import (
 func init() {
 	core.Register(&core.Prop{
 		ID: "C16",
-		Rule: "case = one shapefile of 0-60 (300 thorough) records of one geometry kind (Point, MultiPoint, LineString, MultiLineString of 1-6 parts, Polygon of 1-5 closed or unclosed rings, *Bounds, nil geometry) with 1-6 attribute columns (int within ten characters, float whose %.10f fits 30 characters, NUL-free string of 0-50 bytes: ASCII, UTF-8, internal blanks, tabs; leading/trailing blanks as their own category) in random column order, written through NewEncoder/Encode with a reflect-built archetype struct (shp tags and bare mixed-case names) or NewEncoderFromFields/EncodeFields, and read back through DecodeRow (struct with differently-cased names/tags) or DecodeRowFields; oracle = the list of records written; " +
+		Rule: "case = one shapefile of 0-60 (300 thorough) records of one geometry kind (Point, MultiPoint, LineString, MultiLineString of 1-6 parts, Polygon of 1-5 closed or unclosed rings, *Bounds, nil geometry) with 1-6 attribute columns (int within ten characters, float whose %.10f fits 30 characters, NUL-free string of 0-50 bytes: ASCII, UTF-8, internal blanks, tabs; leading/trailing blanks as their own category) in random column order, written through NewEncoder/Encode with a reflect-built archetype struct (shp tags and bare mixed-case names; 15% of schemas with >= 2 columns have a crossed pair: each field tagged with the other's lower-cased name and the same struct read back, so the tag must win over the name) or NewEncoderFromFields/EncodeFields, and read back through DecodeRow (struct with differently-cased names/tags) or DecodeRowFields; oracle = the list of records written; " +
 			"an evaluation is one record compared; non-trivial = file with >= 2 records and >= 2 columns; distinct by content hash",
 		Assumptions: []string{"coordinates are finite bit patterns compared bitwise", "documented images: LineString -> one-part MultiLineString, unclosed ring -> closed, *Bounds -> 5-vertex rectangle", "files are written to a per-run scratch directory under /verif/.build and removed"},
 		Phases: []core.Phase{{Name: "files", NumCases: func(t string) int {
@@ -35,7 +35,7 @@ func init() {
 		Run: run,
 		Floors: func(t string) map[string]int64 {
 			return map[string]int64{"api.struct": 100, "api.fields": 100, "kind.Point": 20, "kind.MultiPoint": 20, "kind.LineString": 20, "kind.MultiLineString": 20, "kind.Polygon": 20, "kind.*Bounds": 20,
-				"records.compared": 3000, "string.last_column": 50, "string.with_edge_blanks": 200, "ring.unclosed": 200, "file.empty": 3, "column.string": 100, "column.int": 100, "column.float": 100, "string.at_field_width": 20}
+				"records.compared": 3000, "string.last_column": 50, "string.with_edge_blanks": 200, "ring.unclosed": 200, "file.empty": 3, "column.string": 100, "column.int": 100, "column.float": 100, "string.at_field_width": 20, "schema.crossed_tags_and_names": 30}
 		},
 	})
 }
@@ -247,8 +247,22 @@ func genColumns(r *gen.R) []column {
 		}
 		cols = append(cols, col)
 	}
+	if len(cols) >= 2 && r.Chance(0.15) {
+		// crossed tags: each of two fields is tagged with the other's (lower-cased) Go name, and
+		// the same struct is used for reading, so an attribute name equals one field's tag and,
+		// up to case, the other field's name; the tag decides
+		i, j := 0, 1+r.Intn(len(cols)-1)
+		cols[i].tag, cols[j].tag = strings.ToLower(cols[j].encName), strings.ToLower(cols[i].encName)
+		cols[i].dbf, cols[j].dbf = cols[i].tag, cols[j].tag
+		cols[i].decName, cols[i].decTag = cols[i].encName, cols[i].tag
+		cols[j].decName, cols[j].decTag = cols[j].encName, cols[j].tag
+		crossed = true
+	}
 	return cols
 }
+
+// crossed reports that the last genColumns call produced a crossed-tag pair.
+var crossed bool
 
 func goType(kind string) reflect.Type {
 	switch kind {
@@ -292,7 +306,11 @@ func run(c *core.Ctx, idx int) {
 	r := c.R
 	kind := kinds[r.Intn(len(kinds))]
 	structAPI := r.Bool()
+	crossed = false
 	cols := genColumns(r)
+	if crossed {
+		c.Count("schema.crossed_tags_and_names")
+	}
 	maxRec := 60
 	if c.Thorough() && r.Chance(0.1) {
 		maxRec = 300
